@@ -364,13 +364,23 @@ def check(run: Run, prog: Program):
             for e in iter_events(t):
                 if e.kind in ("assign", "write") and e.cell in cm.counters:
                     v = e.info.get("value")
-                    ok = False
-                    if v is not None and isinstance(v, ast.Call) and \
-                            isinstance(v.func, ast.Name) and v.func.id == "getattr" \
-                            and len(v.args) == 3 and \
-                            isinstance(v.args[1], ast.Constant) and \
+                    ok = bool(e.info.get("fresh_guard"))   # under `if not hasattr(self, k)`
+
+                    def _continues(x):
+                        # getattr(self, "<k>", default)  [+ non-negative constant]
+                        if isinstance(x, ast.BinOp) and isinstance(x.op, ast.Add):
+                            for a_, b_ in ((x.left, x.right), (x.right, x.left)):
+                                if isinstance(b_, ast.Constant) and \
+                                        isinstance(b_.value, (int, float)) and \
+                                        b_.value >= 0 and _continues(a_):
+                                    return True
+                            return False
+                        return isinstance(x, ast.Call) and isinstance(x.func, ast.Name) \
+                            and x.func.id == "getattr" and len(x.args) == 3 and \
+                            isinstance(x.args[1], ast.Constant) and \
                             mangle(e.func.cls.name if e.func.cls else "",
-                                   v.args[1].value) == e.cell:
+                                   x.args[1].value) == e.cell
+                    if v is not None and _continues(v):
                         ok = True
                     key = f"{e.func.qualname}/{e.cell}"
                     run.oblige("K2", key, ok, sample={
